@@ -151,6 +151,93 @@ pub fn batch_stream(run: &mut Run, rng: &mut Rng, n: usize) {
     run.notes.push("command-line stream: the sqlgrep binary built from /repo is run on real files (-d, -c, --format, 1-4 input files, FROM t::'file', --stdin); its stdout must equal the library's printed lines".to_owned());
 }
 
+/// another layout of the same statement: blanks outside string literals become other gaps (line breaks, tabs, comments),
+/// keywords and function names change letter case; identifiers and literals are left as they are
+fn relayout_keywords(rng: &mut Rng, text: &str) -> String {
+    const WORDS: &[&str] = &["SELECT", "FROM", "WHERE", "GROUP", "BY", "HAVING", "AND", "IN", "LIMIT", "COUNT"];
+    let mut out = String::new();
+    let mut in_str = false;
+    let mut word = String::new();
+    let flush = |word: &mut String, out: &mut String, rng: &mut Rng| {
+        if WORDS.contains(&word.as_str()) {
+            match rng.below(3) { 0 => out.push_str(&word.to_lowercase()), 1 => out.push_str(word), _ => { for (i, c) in word.chars().enumerate() { if i % 2 == 0 { out.extend(c.to_lowercase()); } else { out.push(c); } } } }
+        } else { out.push_str(word); }
+        word.clear();
+    };
+    for c in text.chars() {
+        if in_str { out.push(c); if c == '\'' { in_str = false; } continue; }
+        if c.is_alphanumeric() || c == '_' { word.push(c); continue; }
+        flush(&mut word, &mut out, rng);
+        if c == '\'' { in_str = true; out.push(c); }
+        else if c == ' ' { out.push_str(*rng.pick(&[" ", "\n", "  \t", " -- note; here\n", "\r\n", " --\n", "\n  "])); }
+        else { out.push(c); }
+    }
+    flush(&mut word, &mut out, rng);
+    out
+}
+
+/// C20 through the program: statements whose text contains `;` and `--` inside string literals, `--` comments that contain
+/// `;` and quotes, an optional trailing semicolon, and re-laid variants (case of keywords, line breaks, comments between
+/// tokens), given with `-c` or `--command-file`. The program must print what the library prints for the same text — and
+/// every variant of one statement must print the same.
+pub fn layout_stream(run: &mut Run, rng: &mut Rng, n: usize) {
+    let bin = match bin_path() { Some(b) => b, None => { run.count("cli:binary-not-available"); run.notes.push("command-line layout stream skipped: the sqlgrep binary was not available".to_owned()); return; } };
+    const DEF: &str = "CREATE TABLE t(line = '^([a-z;-]+) ([0-9]+)$', line[1] => k TEXT, line[2] => v INT);";
+    const DATA: &[u8] = b"a;b 1\na 2\nx--y 3\nb 4\n; 5\na;b;c 6\n";
+    const BASES: &[&str] = &[
+        "SELECT k, v FROM t WHERE k = 'a;b'",
+        "SELECT k FROM t WHERE k != 'a;b;c'",
+        "SELECT v FROM t WHERE k = 'x--y'",
+        "SELECT COUNT(*) FROM t WHERE k != ';'",
+        "SELECT k, COUNT(*) FROM t GROUP BY k HAVING COUNT(*) > 0",
+        "SELECT v FROM t WHERE v > 1 AND k != '--'",
+        "SELECT k FROM t WHERE k IN ('a;b', ';', 'x--y') LIMIT 2",
+        "SELECT input FROM t WHERE v >= 3",
+    ];
+    const TAILS: &[&str] = &["", ";", " ;", " -- done; really", " -- it's ; fine\n", ";\n-- trailing; comment", "\n"];
+    let defs_path = tmp_file(DEF.as_bytes());
+    let data_path = tmp_file(DATA);
+    for _ in 0..n {
+        let base = *rng.pick(BASES);
+        let mut outputs: Vec<(String, Vec<String>)> = Vec::new();
+        for variant in 0..3 {
+            let mut text = if variant == 0 { base.to_owned() } else { relayout_keywords(rng, base) };
+            if variant == 2 { text = text.replacen(" FROM t", " -- which; table?\n FROM t", 1); }
+            text.push_str(*rng.pick(TAILS));
+            let lib = match library_run(DEF, &text, &[data_path.clone()], OutputFormat::Text) {
+                Some(l) => l,
+                None => { run.fail(format!("statement {:?}", text), "cli-layout-variant-rejected", format!("the library does not accept this layout of `{}`", base)); continue; }
+            };
+            let via_file = rng.chance(1, 3);
+            let cmd_path = if via_file { Some(tmp_file(text.as_bytes())) } else { None };
+            let mut args = vec![data_path.display().to_string(), "-d".to_owned(), defs_path.display().to_string()];
+            match &cmd_path { Some(p) => { args.push("--command-file".to_owned()); args.push(p.display().to_string()); } None => { args.push("-c".to_owned()); args.push(text.clone()); } }
+            let out = run_cli(&bin, &args, None, Duration::from_secs(30));
+            if let Some(p) = cmd_path { let _ = std::fs::remove_file(p); }
+            run.oracle_checks += 1;
+            run.count(&format!("cli:layout:{}:{}", if via_file { "command-file" } else { "c" }, lib.0.split(':').next().unwrap_or("")));
+            let got: Vec<String> = out.stdout.split('\n').map(|l| l.to_owned()).collect();
+            let got: Vec<String> = if got.last().map(|l| l.is_empty()).unwrap_or(false) { got[..got.len() - 1].to_vec() } else { got };
+            let desc = format!("sqlgrep {} (statement text {:?})", args.join(" "), text);
+            if out.timed_out { run.fail(desc, "cli-hang", "the program did not finish within 30 s".to_owned()); continue; }
+            if lib.0 != "ok" { run.count("cli:layout:library-error"); continue; }
+            if got != lib.1 {
+                run.fail(desc, "cli-output-differs-from-library", format!("the program printed {:?}; the library run ({}) prints {:?}", got, lib.0, lib.1));
+                continue;
+            }
+            outputs.push((text, got));
+        }
+        for w in outputs.windows(2) {
+            if w[0].1 != w[1].1 {
+                run.fail(format!("{:?} vs {:?}", w[0].0, w[1].0), "cli-layouts-print-differently", format!("{:?} vs {:?}", w[0].1, w[1].1));
+            }
+        }
+    }
+    let _ = std::fs::remove_file(defs_path);
+    let _ = std::fs::remove_file(data_path);
+    run.notes.push("command-line layout stream: statements with `;` and `--` inside string literals, comments containing `;` and quotes, trailing semicolons and re-laid variants given to the real program with -c / --command-file; stdout = the library's lines, equal across the variants".to_owned());
+}
+
 /// `sqlgrep --follow [--head]` on a file that does not grow: with --head the complete lines present are delivered
 /// (the unterminated tail is not); without --head nothing is. The program never ends by itself, so it is given a
 /// fixed time and then killed; only the *content* printed within that time is judged (too little output within the time
